@@ -50,6 +50,8 @@ def shards(tier, seed):
     for be in BACKENDS:
         out.append({'name': f'proc-{be}', 'what': 'proc', 'backend': be, **lim})
     out.append({'name': 'proc-serial', 'what': 'serial', **lim})
+    for j in range(4):
+        out.append({'name': f'pipe{j}', 'what': 'pipe', 'mod': 4, 'rem': j, **lim})
     return out
 
 
@@ -98,6 +100,8 @@ def run_shard(spec, res):
         run_proc(spec, res)
     elif what == 'serial':
         run_serial(spec, res)
+    elif what == 'pipe':
+        run_pipe(spec, res)
 
 
 def run_real(spec, res):
@@ -177,6 +181,85 @@ def run_proc(spec, res):
                 res.violation('len-differs', case, {'len': r['len']}, sig=sig)
 
 
+def run_pipe(spec, res):
+    """Transparency over arbitrary upstream pipelines: for a pipeline program P
+    (from the generator of the program-based monitors) the prefetched /
+    parallel-mapped pipeline must deliver exactly what P delivers.  Real
+    threads; what varies here is the *pipeline below* the parallel stage
+    (copies, frozen copies, batches, concatenations, slices ...)."""
+    import itertools
+    from .. import programs, observe as ob
+    from ..common import import_lazy_dataset
+    from ..terms import Fn
+    ld = import_lazy_dataset()
+    rng = rng_for(spec['seed'], PROPERTY, spec['name'])
+    srcs = [('dict', 5, 'pickle'), ('list', 7, 'pickle'), ('dict', 2, 'copy'),
+            ('list', 4, 'wu'), ('dict', 8, 'pickle')]
+    excluded = {'prefetch1', 'prefetcht', 'parmap', 'cycle', 'tile_shuffle', 'apply_lazy'}
+
+    def progs():
+        cnt = 0
+        for d in (1, 2):
+            for src in srcs[:3]:
+                alpha = [op for op in programs.alphabet(src[1], src[0])
+                         if op[0] not in excluded]
+                for ops in itertools.product(alpha, repeat=d):
+                    cnt += 1
+                    if cnt % (spec['mod'] * (1 if d == 1 else 3)) == spec['rem']:
+                        yield {'src': src, 'ops': list(ops)}
+        for _ in range(spec['rnd_runs'] * 25):
+            p = programs.random_program(rng, 5, sources=srcs)
+            if not any(op[0] in excluded for op in p['ops']):
+                yield p
+    variants = [('prefetch(2,2,t)', lambda d: d.prefetch(2, 2, 't'), True),
+                ('prefetch(3,4,t)', lambda d: d.prefetch(3, 4, 't'), True),
+                ('prefetch(1,2)', lambda d: d.prefetch(1, 2), False),
+                ('map(g,num_workers=2,buffer=3)',
+                 lambda d: d.map(Fn('g'), num_workers=2, buffer_size=3), False)]
+    for prog in progs():
+        status, m = programs.classify(prog)
+        if status != 'ok' or not m.finite or m.n < 1:
+            continue
+        case = {'prog': prog}
+        try:
+            with ob.watchdog(20):
+                want = list(programs.build(ld, prog))
+                for name, wrap, needs_index in variants:
+                    if needs_index and not (m.indexable and m.sized and m.copyable):
+                        continue
+                    base = programs.build(ld, prog)
+                    ref = want if 'map(g' not in name else [('g', v) for v in want]
+                    try:
+                        ds = wrap(base)
+                        got = list(ds)
+                        got2 = list(ds)
+                    except BaseException as e:
+                        res.violation('parallel-stage-refused-supported-pipeline',
+                                      {**case, 'stage': name}, repr(e)[:200],
+                                      sig={'stage': name.split('(')[0],
+                                           'exc': type(e).__name__})
+                        continue
+                    res.count('pipeline_transparency_comparisons')
+                    res.case(('pipe', repr(prog), name), m.n >= 2)
+                    if got != ref or got2 != ref:
+                        res.violation('delivered-sequence-differs',
+                                      {**case, 'stage': name},
+                                      {'delivered': got, 'second': got2, 'want': ref},
+                                      sig={'entry': 'pipeline', 'stage': name.split('(')[0]})
+                        continue
+                    if m.sized:
+                        try:
+                            ln = len(ds)
+                        except BaseException:
+                            ln = None
+                        if ln != len(ref):
+                            res.violation('len-differs', {**case, 'stage': name},
+                                          {'len': ln, 'want': len(ref)},
+                                          sig={'entry': 'pipeline'})
+        except ob.Watchdog:
+            res.inconclusive_because(f'watchdog on {prog!r}')
+
+
 def run_serial(spec, res):
     """backend=False: the serial fallback of lazy_parallel_map."""
     e = conc.env(shim=False)
@@ -210,6 +293,8 @@ def finalize(res, tier):
 
 def replay(case, res):
     from ..common import unjson
+    if 'prog' in case:
+        return
     sc = case['scenario']
     if sc.get('backend') is not None:
         return
